@@ -67,22 +67,22 @@ Proof.
 Qed.
 
 (** ** sums over consecutive ranges, as [tab] writes them *)
-Fixpoint rsum (k : nat) (start : N) (g : N -> R) : R :=
-  match k with O => 0 | S k' => g start + rsum k' (N.succ start) g end.
+Fixpoint nsum (k : nat) (start : N) (g : N -> R) : R :=
+  match k with O => 0 | S k' => g start + nsum k' (N.succ start) g end.
 
-Lemma sumsq_tab_from k : forall start (F : vecR), sumsq (tab_from k start F) = rsum k start (fun i => n2 (F i)).
-Proof. induction k as [|k IH]; intros start F; cbn [tab_from sumsq rsum]; [reflexivity|]. rewrite IH. reflexivity. Qed.
+Lemma sumsq_tab_from k : forall start (F : vecR), sumsq (tab_from k start F) = nsum k start (fun i => n2 (F i)).
+Proof. induction k as [|k IH]; intros start F; cbn [tab_from sumsq nsum]; [reflexivity|]. rewrite IH. reflexivity. Qed.
 
-Lemma rsum_app a : forall b start g, rsum (a + b) start g = rsum a start g + rsum b (start + N.of_nat a)%N g.
+Lemma nsum_app a : forall b start g, nsum (a + b) start g = nsum a start g + nsum b (start + N.of_nat a)%N g.
 Proof.
-  induction a as [|a IH]; intros b start g; cbn [rsum plus].
+  induction a as [|a IH]; intros b start g; cbn [nsum plus].
   - rewrite N.add_0_r. ring.
   - rewrite IH. replace (N.succ start + N.of_nat a)%N with (start + N.of_nat (S a))%N by lia. ring.
 Qed.
 
-Lemma rsum_shift k : forall start d g, rsum k (start + d)%N g = rsum k start (fun i => g (i + d)%N).
+Lemma nsum_shift k : forall start d g, nsum k (start + d)%N g = nsum k start (fun i => g (i + d)%N).
 Proof.
-  induction k as [|k IH]; intros start d g; cbn [rsum]; [reflexivity|].
+  induction k as [|k IH]; intros start d g; cbn [nsum]; [reflexivity|].
   replace (N.succ (start + d)) with (N.succ start + d)%N by lia. rewrite IH. reflexivity.
 Qed.
 
@@ -91,13 +91,13 @@ Proof.
   induction k as [|k IH]; [reflexivity|]. rewrite p2_succ, <- IH. cbn [Nat.pow]. lia.
 Qed.
 
-Lemma rsum_cube n : forall g, rsum (Nat.pow 2 n) 0 g = csum n g.
+Lemma nsum_cube n : forall g, nsum (Nat.pow 2 n) 0 g = csum n g.
 Proof.
   induction n as [|k IH]; intro g.
   - cbn. ring.
   - replace (Nat.pow 2 (S k)) with (Nat.pow 2 k + Nat.pow 2 k)%nat by (cbn [Nat.pow]; lia).
-    rewrite rsum_app. cbn [csum]. rewrite IH. f_equal.
-    rewrite of_nat_pow2. rewrite (rsum_shift (Nat.pow 2 k) 0 (p2 k) g). rewrite IH.
+    rewrite nsum_app. cbn [csum]. rewrite IH. f_equal.
+    rewrite of_nat_pow2. rewrite (nsum_shift (Nat.pow 2 k) 0 (p2 k) g). rewrite IH.
     apply csum_ext. intros i Hi. rewrite (lxor_p2_add i k Hi). reflexivity.
 Qed.
 
@@ -107,7 +107,7 @@ Proof.
 Qed.
 
 Lemma sumsq_tab_cube n (F : vecR) : sumsq (tab (Nat.pow 2 n) F) = csum n (fun i => n2 (F i)).
-Proof. unfold tab. rewrite sumsq_tab_from. apply rsum_cube. Qed.
+Proof. unfold tab. rewrite sumsq_tab_from. apply nsum_cube. Qed.
 
 Lemma sumsq_cube (v : bufR) n : length v = Nat.pow 2 n -> sumsq v = csum n (fun i => n2 (get Rops v i)).
 Proof. intro H. rewrite <- (tab_get_id v) at 1. rewrite H. apply sumsq_tab_cube. Qed.
